@@ -58,3 +58,30 @@ pub(crate) fn switch_cut_if_blocked_model() {
         }
     }
 }
+
+/// `Scheduler::switch` model for `Condvar::wait` phase 1: a switch while still runnable is a
+/// preemption; the switch taken in the Blocked state is the yield point of `park`, where the
+/// contract of `wait` is obliged: caller parked (no pending operation), enqueued (condvar object 0
+/// now has 2 waiters), mutex (object 1) released.
+pub(crate) fn switch_wait_yield_model() {
+    let blocked = Scheduler::with_execution(|e| {
+        let a = crate::rt::thread::verif_kani::active_index(&e.threads).unwrap();
+        let v = crate::rt::thread::verif_kani::th_view(crate::rt::thread::verif_kani::thread_at(&e.threads, a));
+        if v.st == crate::rt::thread::verif_kani::StView::Blocked {
+            assert!(v.op.is_none(), "OBL:C08.condvar.wait.yields_parked_not_blocked_on_an_object");
+            assert!(crate::rt::mutex::verif_kani::owner_of(e, 1).is_none(), "OBL:C08.condvar.wait.mutex_released_before_parking");
+            assert!(crate::rt::condvar::verif_kani::waiters_len(e, 0) == 2, "OBL:C08.condvar.wait.enqueued_before_parking");
+            true
+        } else {
+            false
+        }
+    });
+    if blocked {
+        kani::cover!(true, "yield_point_reached");
+        kani::assume(false);
+    } else {
+        unsafe {
+            SWITCHES += 1;
+        }
+    }
+}
